@@ -133,6 +133,7 @@ type Parameter struct {
 	In          string  `json:"in,omitempty"`
 	Description string  `json:"description,omitempty"`
 	Required    bool    `json:"required,omitempty"`
+	Deprecated  bool    `json:"deprecated,omitempty"`
 	Schema      *Schema `json:"schema,omitempty"`
 }
 
@@ -206,6 +207,9 @@ type Schema struct {
 	OneOf                []*Schema          `json:"oneOf,omitempty"`
 	Discriminator        *Discriminator     `json:"discriminator,omitempty"`
 	// keywords goag accepts and ignores (outside every oracle)
+	// goag's vendor extension: the Go time layout (a Go expression such as time.RFC1123Z)
+	// of a date-time string
+	TimeFormat string `json:"x-goag-go-time-format,omitempty"`
 	Enum      []any    `json:"enum,omitempty"`
 	ReadOnly  bool     `json:"readOnly,omitempty"`
 	WriteOnly bool     `json:"writeOnly,omitempty"`
